@@ -25,6 +25,21 @@ def step : Sexp → Option Sexp
   | list [atom "abi"] => pure (list [atom "ok", atom "abi"])
   | list [atom "passby"] =>
       pure (list (atom "ok" :: Tables.passTable.map fun r => list [ofBool r.1, atom r.2.1, atom r.2.2.1, ofBool r.2.2.2]))
+  -- `(cloop s e st)`: iteration values of the generated `for` header (fuel 4096: far above every trip count of the generated box)
+  | list [atom "cloop", s, e, st] => do
+      let s ← s.toInt?; let e ← e.toInt?
+      let st ← match st with | atom "none" => some none | x => x.toInt?.map some
+      pure (list (atom "ok" :: (cLoopSeq s e st 4096).map ofInt))
+  -- `(cexpr program inputs…)`: one assignment `r = <integer expression>`; reference semantics like `prog`
+  | list (atom "cexpr" :: prog :: inputs) => do
+      let p ← LokiModel.Fir.decProgram prog
+      let names := match LokiModel.Fir.findUnit p p.main with | some u => u.args | none => []
+      let rs ← inputs.mapM fun
+        | list ins => do
+            let ins ← LokiModel.Fir.decInputs ins
+            pure (LokiModel.Fir.encRes names (LokiModel.Fir.runMain p 100000 ins))
+        | _ => none
+      pure (list (atom "ok" :: rs))
   | list (atom "prog" :: prog :: inputs) => do
       let p ← LokiModel.Fir.decProgram prog
       let names := match LokiModel.Fir.findUnit p p.main with | some u => u.args | none => []
